@@ -8,6 +8,9 @@ from collections import Counter
 
 from .core import Diverged, EventLog, SimDisk, Violation, Watchdog
 
+import os as _os
+
+LOG_STATE = bool(_os.environ.get("GSIM_LOG_STATE"))  # determinism self-test: hash of the whole model in every event
 KINDS = ("ir", "mod", "sec", "bi", "cb", "db", "px", "sym")
 # child kind -> (parent kind, parent collection field, child attribute naming the parent)
 PARENT_OF = {
@@ -277,6 +280,8 @@ class World:
 
     def event(self, rec):
         rec["step"] = self.step
+        if LOG_STATE:
+            rec["model"] = self.m.state_hash()
         self.log.add(rec)
 
 
